@@ -64,7 +64,8 @@ CLAIMED = {
              '(n, w) a generated theorem `forall operands in the stated finite domain, block_correct` (the frame equation: '
              'final memory = image patched with the documented result on EVERY word modulo a declared scratch mask, exit '
              'marker, halting) proved by vm_compute of an exhaustive forallb + a Qed lifting lemma (check_block_sound, '
-             'blocks_by_enumeration); pair-composition harnesses; sampled larger sizes run on the real engines.',
+             'blocks_by_enumeration); pair-composition harnesses; sampled larger sizes run on the real engines.'
+             ' For hex.add/sub/xor/or/and/not/inc/dec/cmp at n = 16 (64-bit vectors; thorough also w = 32 and n = 5, 8) and bit.xor/not/add at n = 64 the frame equation is proved for ALL operand values below 16^n / 2^n by COMPOSITION, not enumeration: per digit position a finite digit lemma (all digit values x all declared carry/state-cell values, computed on the regenerated image, whole footprint compared), lifted by the machine\'s locality theorem (Proofs/Locality.v) and combined by induction with the carry-chain arithmetic (Properties/C04_compositional.v, C05_compositional.v).',
         design_ref='DESIGN.md section 4, C04/C05/C08/C09',
         note='Bounds are in every theorem statement: exhaustive operands for the instance sizes (hex n <= 2), w in {32, 64}; '
              'larger n and arbitrary macro sequences are sampled on the real engines (tests, not proofs). The image is the '
@@ -75,7 +76,8 @@ CLAIMED = {
         text='Same machinery as C04 for the bit namespace (memory, logic with exact/zero variants, conditional jumps, shifts '
              'and rotates, inc/dec/neg/add/sub/mul/mul10/div/idiv and loop variants, div10): generated per-instance theorems '
              '`forall operands in the stated finite domain, block_correct` by exhaustive vm_compute + Qed lifting lemmas, '
-             'w in {16, 32, 64}.',
+             'w in {16, 32, 64}. bit.xor/not/add at n = 64 are proved for ALL operands by composition (digit lemmas + locality '
+             '+ carry-chain induction, Properties/C05_compositional.v).',
         design_ref='DESIGN.md section 4, C04/C05/C08/C09',
         note='Exhaustive for the instance sizes stated in each theorem (bit n <= 8 where op counts allow); larger n and arbitrary '
              'sequences sampled on the real engines. F22 (idiv by zero), F23 (mul10 n=1) fixed.',
@@ -92,6 +94,25 @@ CLAIMED = {
              'with vm_compute inside Coq, plus the spec evaluated on the real behaviour. Version independence of assembled '
              'programs and get_word\'s address mask are campaign-only. F3-F5 fixed.',
         technique='Coq round-trip / codec theorems on a writer+reader model + correspondence campaign evaluated in Coq'),
+    'C08': dict(
+        category='proof',
+        text='Theorems by kernel computation on images regenerated from the current stl and assembler on every run: for each '
+             'documented pointer macro of stl/hex/pointers/*.fj, stl/ptrlib.fj and stl/bit/pointers.fj a generated theorem '
+             '`forall operands in the stated explicit-list domain, ptr_block_correct` (frame equation on EVERY memory word '
+             'modulo a declared scratch mask, exit marker, halting, plus consistency of the library\'s shared pointer ops with '
+             'their variable copies). The pointer ranges over the address of every cell of a buffer, the pointed cell over every '
+             'stored hex/byte, indices over -k..k; ordered pairs of dereferences through two pointers; every balanced push/pop '
+             'word up to length 6 (length 8: all shapes with a covering set of kinds) against an abstract LIFO stack with sp '
+             'restored; call trees and shared sub-routines over call/return, call-with-params and fcall/fret whose output equals '
+             'the trace of the abstract call tree. Exhaustive forallb by vm_compute plus Qed lifting lemmas (check_ptr_block_sound, '
+             'ptr_blocks_by_list_enumeration, ldom_split_at, udom_cons); failing operands are confirmed on the real engines.',
+        design_ref='DESIGN.md section 4, C04/C05/C08/C09',
+        note='Bounds are in every theorem statement: 4-cell buffers placed across a 32-op boundary, w in {32, 64} (bit namespace '
+             '{16, 32, 64}), all 256 byte values of the target cell in thorough (22 representative bytes in quick). Each block '
+             'starts from the initial library state; residue between dereferences is covered by the ordered-pair blocks and the '
+             'consistency clause, not for arbitrary sequences (partial). Stack cells above sp are scratch in their byte bits; '
+             'call trees are a generated finite family, no recursion. F27 fixed.',
+        technique='Coq theorems by computation (exhaustive explicit-list domains, stated) on regenerated images + frame / pointer-consistency lemmas'),
     'C09': dict(
         category='proof',
         text='Theorems by kernel computation on images regenerated from the current stl and assembler on every run: for each '
